@@ -835,3 +835,77 @@ def nsi_unit_average_neighbours_degree(A):
 def nsi_unit_max_neighbours_degree(A):
     k = [x + 1 for x in outdegree(A)]
     return [max(k[j] for j in closed_neighbours(A, i)) for i in range(len(A))]
+
+
+# ------------------------------------------------ component-wise evaluation (disconnected graphs)
+#
+# The random-walk betweenness measures are defined on connected graphs.  pyunicorn's convention
+# (code comments in newman_betweenness / arenas_betweenness / nsi_*: "has to be calculated for
+# each component separately ... If the component has size 1, set random walk betweenness to zero"):
+# the definition is evaluated on every connected component as a network of its own (its size is
+# the component size), nodes of size-1 components get 0.
+
+def components(A):
+    """Connected components of an undirected graph, each a sorted list of nodes."""
+    n = len(A)
+    seen = [False] * n
+    comps = []
+    for s in range(n):
+        if seen[s]:
+            continue
+        seen[s] = True
+        comp, frontier = [s], [s]
+        while frontier:
+            nxt = []
+            for u in frontier:
+                for v in range(n):
+                    if (A[u][v] or A[v][u]) and not seen[v]:
+                        seen[v] = True
+                        comp.append(v)
+                        nxt.append(v)
+            frontier = nxt
+        comps.append(sorted(comp))
+    return comps
+
+
+def induced(A, nodes):
+    return [[A[a][b] for b in nodes] for a in nodes]
+
+
+def per_component(A, fn, singleton=0.0):
+    """Evaluate the node-valued definition `fn` on each connected component separately."""
+    res = np.zeros(len(A))
+    for comp in components(A):
+        if len(comp) == 1:
+            res[comp[0]] = singleton
+        else:
+            vals = fn(induced(A, comp))
+            for a, v in zip(comp, vals):
+                res[a] = float(v)
+    return res
+
+
+def nsi_unit_arenas_betweenness(A, exclude_neighbors=True):
+    """n.s.i. Arenas-type random-walk betweenness at unit node weights, stopping mode "neighbors",
+    connected undirected graph; read from the docstring of nsi_arenas_betweenness plus the n.s.i.
+    principle (every node is also linked to itself):
+    the walker moves to a uniformly chosen member of the *closed* neighbourhood of its current node
+    and "stops as soon as it reaches a neighbor of the target node" (or the target); result_j is the
+    sum over targets t and sources s of the expected number of arrivals at j, where
+    exclude_neighbors=True uses "only source and target nodes that are not linked to the node of
+    interest" (j not in N+(t), s not in N+(t)); with False the final arrival at the stopping node
+    is counted as well."""
+    n = len(A)
+    Ap = np.array(A, dtype=np.float64) + np.eye(n)
+    P = Ap / Ap.sum(axis=1)[:, None]
+    res = np.zeros(n)
+    for t in range(n):
+        stop = [a for a in range(n) if Ap[t, a]]
+        T = [a for a in range(n) if not Ap[t, a]]
+        if not T:
+            continue
+        F = np.linalg.solve(np.eye(len(T)) - P[np.ix_(T, T)], np.eye(len(T)))
+        res[T] += (F - np.eye(len(T))).sum(axis=0)
+        if not exclude_neighbors:
+            res[stop] += F.dot(P[np.ix_(T, stop)]).sum(axis=0)
+    return res
